@@ -39,7 +39,7 @@ type WorldCfg struct {
 	// Before is called before an op is applied (to capture observations); After is the property oracle,
 	// called after every successfully applied op.
 	Before func(w *World, op string) *core.Violation
-	After func(w *World, op string) *core.Violation
+	After  func(w *World, op string) *core.Violation
 	// StrictAbort: an engine abort of a statement in a history without any concurrent transaction is
 	// reported (no other transaction can be the reason).
 	KeyExtra func(w *World) string
@@ -521,45 +521,47 @@ func (w *World) HeapLayout() string {
 func (w *World) Volatile() string {
 	var sb strings.Builder
 	cat := w.db.Cat()
-	fmt.Fprintf(&sb, "nextTid%d ", core.Field(cat, "nextTableID").Uint())
+	fmt.Fprintf(&sb, "nextTid%s ", core.Safe("Catalog.nextTableID", func() string { return fmt.Sprint(core.Field(cat, "nextTableID").Uint()) }))
 	tables := cat.GetAllTables()
 	sort.Slice(tables, func(i, j int) bool { return tables[i].OID() < tables[j].OID() })
 	for _, tm := range tables {
-		fmt.Fprintf(&sb, "last%d:%d ", tm.OID(), core.Field(tm.Table(), "lastPageID").Int())
+		fmt.Fprintf(&sb, "last%d:%s ", tm.OID(), core.Safe("TableHeap.lastPageID", func() string { return fmt.Sprint(core.Field(tm.Table(), "lastPageID").Int()) }))
 	}
-	fmt.Fprintf(&sb, "reuse%s ", core.DumpV(core.Field(w.db.BPM(), "reUsablePageList")))
+	fmt.Fprintf(&sb, "reuse%s ", core.Safe("BufferPoolManager.reUsablePageList", func() string { return core.DumpV(core.Field(w.db.BPM(), "reUsablePageList")) }))
 	dm := w.db.inst().GetDiskManager()
-	fmt.Fprintf(&sb, "nextPid%s ", core.DumpV(core.Field(dm, "nextPageID")))
+	fmt.Fprintf(&sb, "nextPid%s ", core.Safe("DiskManagerImpl.nextPageID", func() string { return core.DumpV(core.Field(dm, "nextPageID")) }))
 	// the lock tables (a read leaves a shared lock behind that no other part of the key shows)
 	names := map[int64]string{}
 	for id, t := range w.txns {
 		names[int64(t.T.GetTransactionID())] = fmt.Sprintf("T%d", id)
 	}
-	lm := w.db.inst().GetLockManager()
-	var locks []string
-	for it := core.Field(lm, "sharedLockTable").MapRange(); it.Next(); {
-		var hs []string
-		for i := 0; i < it.Value().Len(); i++ {
-			if n, ok := names[it.Value().Index(i).Int()]; ok {
-				hs = append(hs, n)
-			} else {
-				hs = append(hs, "ended")
+	sb.WriteString(core.Safe("LockManager.sharedLockTable/exclusiveLockTable", func() string {
+		lm := w.db.inst().GetLockManager()
+		var locks []string
+		for it := core.Field(lm, "sharedLockTable").MapRange(); it.Next(); {
+			var hs []string
+			for i := 0; i < it.Value().Len(); i++ {
+				if n, ok := names[it.Value().Index(i).Int()]; ok {
+					hs = append(hs, n)
+				} else {
+					hs = append(hs, "ended")
+				}
+			}
+			sort.Strings(hs)
+			if len(hs) > 0 {
+				locks = append(locks, fmt.Sprintf("S%d.%d=%s", it.Key().Field(0).Int(), it.Key().Field(1).Uint(), strings.Join(hs, ",")))
 			}
 		}
-		sort.Strings(hs)
-		if len(hs) > 0 {
-			locks = append(locks, fmt.Sprintf("S%d.%d=%s", it.Key().Field(0).Int(), it.Key().Field(1).Uint(), strings.Join(hs, ",")))
+		for it := core.Field(lm, "exclusiveLockTable").MapRange(); it.Next(); {
+			n, ok := names[it.Value().Int()]
+			if !ok {
+				n = "ended"
+			}
+			locks = append(locks, fmt.Sprintf("X%d.%d=%s", it.Key().Field(0).Int(), it.Key().Field(1).Uint(), n))
 		}
-	}
-	for it := core.Field(lm, "exclusiveLockTable").MapRange(); it.Next(); {
-		n, ok := names[it.Value().Int()]
-		if !ok {
-			n = "ended"
-		}
-		locks = append(locks, fmt.Sprintf("X%d.%d=%s", it.Key().Field(0).Int(), it.Key().Field(1).Uint(), n))
-	}
-	sort.Strings(locks)
-	sb.WriteString(strings.Join(locks, " "))
+		sort.Strings(locks)
+		return strings.Join(locks, " ")
+	}))
 	return sb.String()
 }
 
